@@ -180,3 +180,35 @@ pub fn cmd_subpats(out: &Path, files: &[PathBuf]) {
         }
     }
 }
+
+/// `refdfa <outdir> <specfile>`: each line `id utf8mode unicode icase hexpattern` -> `<id>.cap`
+/// holding the DFA regex-automata builds for that single pattern (no logos code involved).
+pub fn cmd_refdfa(out: &Path, spec: &Path) {
+    std::fs::create_dir_all(out).unwrap();
+    for line in std::fs::read_to_string(spec).unwrap().lines() {
+        let p: Vec<&str> = line.split(' ').collect();
+        if p.len() < 5 {
+            continue;
+        }
+        let unhex = |s: &str| -> Vec<u8> { if s == "-" { vec![] } else { (0..s.len() / 2).map(|i| u8::from_str_radix(&s[2 * i..2 * i + 2], 16).unwrap()).collect() } };
+        let pat = String::from_utf8(unhex(p[4])).unwrap();
+        let mut c = String::new();
+        writeln!(c, "id {}", p[0]).unwrap();
+        writeln!(c, "panic 0").unwrap();
+        writeln!(c, "def {}", p[0]).unwrap();
+        writeln!(c, "utf8 {}", p[1]).unwrap();
+        match build_dfa(&[(pat, p[2] == "1", p[3] == "1")], p[1] == "1") {
+            Ok(dfa) => {
+                writeln!(c, "leaf 0 unit:Ref prio=1 cb=0 lit=0 isutf8=0 minlen=0 default_prio=0 greedy_all=0 src=- hir=-").unwrap();
+                dump_dfa(&dfa, &mut c);
+                writeln!(c, "outcome accepted").unwrap();
+            }
+            Err(e) => {
+                writeln!(c, "builderr {}", crate::hex(e.as_bytes())).unwrap();
+                writeln!(c, "outcome rejected").unwrap();
+            }
+        }
+        writeln!(c, "end").unwrap();
+        std::fs::write(out.join(format!("{}.cap", p[0])), c).unwrap();
+    }
+}
